@@ -1,0 +1,60 @@
+//! Verification hooks (cargo feature `verif-hooks`, off by default).
+//!
+//! Nothing in here changes behaviour: a thread-local append-only event sink that the
+//! library writes to at a few marked places, and a process-wide settable callback that is
+//! invoked at schedule points (between critical sections) so that a stress harness can
+//! perturb thread interleavings. With the feature off this module does not exist.
+
+use std::cell::RefCell;
+use std::sync::atomic::{AtomicU64, Ordering};
+use std::sync::{Arc, RwLock};
+
+/// Events emitted by the hooked places in the library.
+#[derive(Debug, Clone, PartialEq)]
+pub enum Event {
+    /// Head of one pass of the forward-chaining cycle loop (`entry` names the function).
+    ForwardPass {
+        /// Which entry point runs the loop
+        entry: &'static str,
+        /// Zero-based pass number
+        cycle: usize,
+    },
+}
+
+thread_local! {
+    static EVENTS: RefCell<Vec<Event>> = const { RefCell::new(Vec::new()) };
+}
+
+static SCHED_REACHED: AtomicU64 = AtomicU64::new(0);
+
+type SchedFn = Arc<dyn Fn(&'static str) + Send + Sync>;
+static SCHED_CB: RwLock<Option<SchedFn>> = RwLock::new(None);
+
+/// Append an event to the calling thread's sink.
+pub fn emit(ev: Event) {
+    EVENTS.with(|e| e.borrow_mut().push(ev));
+}
+
+/// Drain the calling thread's sink.
+pub fn take_events() -> Vec<Event> {
+    EVENTS.with(|e| std::mem::take(&mut *e.borrow_mut()))
+}
+
+/// Install (or remove) the schedule-point callback.
+pub fn set_sched_callback(cb: Option<SchedFn>) {
+    *SCHED_CB.write().unwrap() = cb;
+}
+
+/// Called by the library between critical sections; default is a no-op.
+pub fn sched_point(site: &'static str) {
+    SCHED_REACHED.fetch_add(1, Ordering::Relaxed);
+    let cb = SCHED_CB.read().unwrap().clone();
+    if let Some(cb) = cb {
+        cb(site);
+    }
+}
+
+/// Number of schedule points reached so far in this process.
+pub fn sched_points_reached() -> u64 {
+    SCHED_REACHED.load(Ordering::Relaxed)
+}
